@@ -57,7 +57,7 @@ var vpProbeMu sync.Mutex
 
 func vpH_tv_stdlib() {
 	s := vpStrUpTo(3, "a/# ")
-	switch vpInt(0, 33) {
+	switch vpInt(0, 35) {
 	case 0:
 		vpAssert(strings.Count(s, "/") == vpCountByte(s, '/'), "strings.Count")
 	case 1:
@@ -157,6 +157,16 @@ func vpH_tv_stdlib() {
 	case 32:
 		b, err := strconv.ParseBool(s)
 		vpAssert(err != nil || b || !b, "strconv.ParseBool")
+	case 34:
+		f := strings.FieldsFunc(s, func(r rune) bool { return r == '/' })
+		n := 0
+		for _, x := range f {
+			n += len(x)
+			vpAssert(x != "" && vpFirstIdx(x, '/') < 0, "strings.FieldsFunc pieces")
+		}
+		vpAssert(n == len(s)-vpCountByte(s, '/'), "strings.FieldsFunc")
+	case 35:
+		vpAssert(strings.TrimLeft(s, "a/") == strings.TrimLeftFunc(s, func(r rune) bool { return r == 'a' || r == '/' }), "strings.TrimLeft cutset")
 	case 33:
 		m := map[string]int{s: 1, "zz": 2}
 		var ks []string
